@@ -308,7 +308,10 @@ class NumOps:
             tv = _cmp_ranges(op, a.rng, b.rng)
         sym = mk_sym("cmp", ("const", type(op).__name__), a.sym, b.sym)
         if tv is None and self.I.explicit and a.sym is not None and b.sym is not None and a.sym != b.sym:
-            self.I.open_cmps.append((a.sym, b.sym))
+            opq = self.I.opaque_funcs or ()
+            if not any(getattr(getattr(fr, "fi", None), "fq", None) in opq for fr in self.I.stack):
+                # (guards inside a function that the run treats as uninterpreted are that function's own business)
+                self.I.open_cmps.append((a.sym, b.sym))
         self.I.on_compare(node, op, a, b)
         return Bool(tv, prov, sym)
 
